@@ -76,6 +76,9 @@ FREE1 = {"exp": sp.exp, "log": sp.log, "log1p": lambda x: sp.log(1 + x), "fabs":
 
 
 class Interp:
+    int_div_floor = True        # C++ integer division of sizes / counts truncates; a subclass working on symbolic extents whose divisibility is
+                                # asserted by the code (reshape) may switch this off
+
     def __init__(self, F, f, env=None, n=3, members=None, opaque=None):
         self.F, self.f, self.n = F, f, n
         self.env = dict(env or {})          # decl id -> value
@@ -146,7 +149,7 @@ class Interp:
                 return self.ev(c[1])
             if n["op"] not in BINOPS:
                 raise OutOfFragment("binary " + n["op"])
-            if n["op"] == "/" and (n.get("t") or "").replace("const ", "").strip() in _INTEGRAL:
+            if n["op"] == "/" and self.int_div_floor and (n.get("t") or "").replace("const ", "").strip() in _INTEGRAL:
                 # C++ integer division truncates (the operands here are sizes / counts, non-negative)
                 return bcast(lambda a, b: sp.floor(a / b), self.ev(c[0]), self.ev(c[1]))
             return bcast(BINOPS[n["op"]], self.ev(c[0]), self.ev(c[1]))
